@@ -21,6 +21,7 @@
 -/
 import VfsModel.Proofs.Faithful
 import VfsModel.Props.C06
+import VfsModel.Embedded
 namespace Vfs
 
 /-! ### definitions -/
@@ -129,8 +130,7 @@ theorem ite {α} {c : Prop} [Decidable c] {a b : M α} (ha : NoPanic I a) (hb : 
     NoPanic I (if c then a else b) := by
   split <;> assumption
 
-/-- weakening of the postcondition is not needed: `NoPanic` for a stronger invariant that is
-implied pointwise and preserved -/
+/-- `bind` after an operation that returns `()` -/
 theorem unit_bind {β} {m : M Unit} {f : Unit → M β} (hm : NoPanic I m) (hf : NoPanic I (f ())) :
     NoPanic I (m >>= f) := bind hm (fun _ => hf)
 
@@ -1165,4 +1165,951 @@ theorem relJoin_panics (dst : VPath) (n : Nat) (x : VPath) (h : x.path.length < 
   unfold relJoin; rw [if_pos h]
 
 end VPath
+end Vfs
+
+/-! ### the fuel-taking recursions
+
+`removeDirAll`, `walkAll`, `copyItems` (hence `copyDir`, `moveDir`) return `.panic` at fuel 0.
+That outcome is a sentinel of the model for "the recursion of the real code went deeper / the
+iteration went on longer than the fuel" (in the real code: a directory tree deeper than the
+stack, or an iterator that never ends, which needs a cyclic or infinite directory structure) —
+it is not a Rust panic site. Two kinds of statements:
+
+* one-step lemmas (`np_…_step`): one unfolding never panics provided the recursive calls do
+  not — every panic site *other than* the recursive call is excluded;
+* exhaustion lemmas (`…_panic`): if the outcome is `.panic`, then the run reached the `0 =>`
+  branch, in the sense of the predicates `RemoveDirAllOut`, `WalkAllOut`, `CopyItemsOut`, which
+  mirror the recursion along the successful steps of the run. -/
+namespace Vfs
+namespace VPath
+variable {I : World → Prop}
+
+theorem withPath_panic_inv {α} (p : Str) (m : M α) (w : World)
+    (h : (M.withPath p m w).1 = .panic) : (m w).1 = .panic := by
+  have : (M.withPath p m w) = ((m w).1.withPath p, (m w).2) := rfl
+  rw [this] at h
+  cases hr : (m w).1 <;> rw [hr] at h <;> simp [Res.withPath] at h ⊢
+
+theorem ret_ok_inv {α} {r : Res α} {a : α} {w w' : World} (h : M.ret r w = (.ok a, w')) :
+    r = .ok a ∧ w' = w := by
+  have h' : (r, w) = (Res.ok a, w') := h
+  injection h' with h1 h2
+  exact ⟨h1, h2.symm⟩
+
+/-! #### `remove_dir_all` -/
+
+/-- the loop over the children never panics if the recursive calls on the children do not -/
+theorem np_removeChildren_of (fuel : Nat) (l : List VPath) (h : ∀ c ∈ l, c.fs.NoPanic I)
+    (hrec : ∀ c ∈ l, NoPanic I (removeDirAll fuel c)) : NoPanic I (removeChildren fuel l) := by
+  induction l with
+  | nil => unfold removeChildren; exact .pure _
+  | cons c rest ih =>
+    unfold removeChildren
+    have hc := h c (by simp)
+    apply NoPanic.bind (np_metadata c hc)
+    intro md
+    dsimp only
+    have hrest := ih (fun x hx => h x (by simp [hx])) (fun x hx => hrec x (by simp [hx]))
+    split
+    · exact NoPanic.bind (np_removeFile c hc) (fun _ => hrest)
+    · exact NoPanic.bind (hrec c (by simp)) (fun _ => hrest)
+
+/-- **one unfolding of `remove_dir_all`** never panics, provided the recursive calls (on paths
+of the same filesystem, with the remaining fuel) do not -/
+theorem np_removeDirAll_step (fuel : Nat) (p : VPath) (h : p.fs.NoPanic I)
+    (hrec : ∀ c : VPath, c.fs = p.fs → NoPanic I (removeDirAll fuel c)) :
+    NoPanic I (removeDirAll (fuel + 1) p) := by
+  unfold removeDirAll
+  apply NoPanic.bind (np_exists p h)
+  intro b
+  split
+  · exact .pure _
+  · apply NoPanic.bindQ _ (np_readDir p h) (readDir_fs p)
+    intro children hc
+    apply NoPanic.bind
+    · exact np_removeChildren_of fuel children (fun c hm => by rw [(hc c hm).1]; exact h)
+        (fun c hm => hrec c (hc c hm).1)
+    · intro _; exact np_removeDir p h
+
+/-- the loop over the children runs out of fuel: some child is a directory on which the
+recursive call `act` (with exhaustion predicate `R`) runs out of fuel, all earlier children
+having been removed successfully -/
+def ChildrenOut (act : VPath → M Unit) (R : VPath → World → Prop) : List VPath → World → Prop
+  | [], _ => False
+  | c :: rest, w => ∃ md w1, c.metadata w = (.ok md, w1) ∧
+      ((md.ftype = .dir ∧ R c w1) ∨
+       (md.ftype = .dir ∧ ∃ w2, act c w1 = (.ok (), w2) ∧ ChildrenOut act R rest w2) ∨
+       (md.ftype = .file ∧ ∃ w2, c.removeFile w1 = (.ok (), w2) ∧ ChildrenOut act R rest w2))
+
+/-- `removeDirAll fuel p` started in `w` reaches the `0 =>` branch: the fuel is 0, or the path
+exists, its listing succeeds, and the loop over the children runs out of fuel -/
+def RemoveDirAllOut : Nat → VPath → World → Prop
+  | 0, _, _ => True
+  | fuel + 1, p, w => ∃ w1 children w2, p.exists_ w = (.ok true, w1) ∧
+      p.readDir w1 = (.ok children, w2) ∧
+      ChildrenOut (removeDirAll fuel) (RemoveDirAllOut fuel) children w2
+
+theorem removeChildren_panic (fuel : Nat)
+    (hrec : ∀ (c : VPath) (w : World), c.fs.NoPanic I → I w →
+      (removeDirAll fuel c w).1 = .panic → RemoveDirAllOut fuel c w)
+    (l : List VPath) (h : ∀ c ∈ l, c.fs.NoPanic I) (w : World) (hw : I w)
+    (hp : (removeChildren fuel l w).1 = .panic) :
+    ChildrenOut (removeDirAll fuel) (RemoveDirAllOut fuel) l w := by
+  induction l generalizing w with
+  | nil =>
+    unfold removeChildren at hp
+    exact absurd hp (Res.ok_ne_panic _)
+  | cons c rest ih =>
+    have hc := h c (by simp)
+    have hrest := ih (fun x hx => h x (by simp [hx]))
+    unfold removeChildren at hp
+    obtain ⟨md, w1, hmd, hw1, hp1⟩ := NoPanic.bind_panic_right (np_metadata c hc) hw hp
+    refine ⟨md, w1, hmd, ?_⟩
+    dsimp only at hp1
+    cases hft : md.ftype with
+    | file =>
+      rw [hft] at hp1
+      obtain ⟨_, w2, hrm, hw2, hp2⟩ := NoPanic.bind_panic_right (np_removeFile c hc) hw1 hp1
+      exact Or.inr (Or.inr ⟨rfl, w2, hrm, hrest w2 hw2 hp2⟩)
+    | dir =>
+      rw [hft] at hp1
+      have hp1' : (M.bind (removeDirAll fuel c) (fun _ => removeChildren fuel rest) w1).1 = .panic := hp1
+      have hpres := (pres_removeDirAll fuel c hc.all).pres w1 hw1
+      cases hres : removeDirAll fuel c w1 with
+      | mk r w2 =>
+        rw [hres] at hpres
+        cases r with
+        | ok u =>
+          rw [M.bind_ok hres] at hp1'
+          exact Or.inr (Or.inl ⟨rfl, w2, rfl, hrest w2 hpres hp1'⟩)
+        | err k pth => rw [M.bind_err hres] at hp1'; cases hp1'
+        | panic => exact Or.inl ⟨rfl, hrec c w1 hc hw1 (by rw [hres])⟩
+
+/-- **a `.panic` of `remove_dir_all` is the fuel sentinel**: over a panic-free filesystem, in a
+world satisfying the invariant, the only way to `.panic` is to reach the `0 =>` branch -/
+theorem removeDirAll_panic (fuel : Nat) (p : VPath) (h : p.fs.NoPanic I) (w : World) (hw : I w)
+    (hp : (removeDirAll fuel p w).1 = .panic) : RemoveDirAllOut fuel p w := by
+  induction fuel generalizing p w with
+  | zero => unfold RemoveDirAllOut; trivial
+  | succ fuel ih =>
+    unfold removeDirAll at hp
+    obtain ⟨b, w1, hex, hw1, hp1⟩ := NoPanic.bind_panic_right (np_exists p h) hw hp
+    split at hp1
+    · exact absurd hp1 (Res.ok_ne_panic _)
+    · rename_i hb
+      have hb' : b = true := by cases b <;> simp_all
+      subst hb'
+      have hq := (readDir_fs p).post w1
+      obtain ⟨children, w2, hrd, hw2, hp2⟩ := NoPanic.bind_panic_right (np_readDir p h) hw1 hp1
+      rw [hrd] at hq
+      have hc := hq children rfl
+      have hcf : ∀ c ∈ children, c.fs.NoPanic I := fun c hm => by rw [(hc c hm).1]; exact h
+      have hp3 := NoPanic.bind_panic_left (pres_removeChildren fuel children (fun c hm => (hcf c hm).all))
+        (fun _ => np_removeDir p h) hw2 hp2
+      unfold RemoveDirAllOut
+      exact ⟨w1, children, w2, hex, hrd,
+        removeChildren_panic fuel (fun c w hc hw hp => ih c hc w hw hp) children hcf w2 hw2 hp3⟩
+
+theorem removeDirAll_ne_panic_of (fuel : Nat) (p : VPath) (h : p.fs.NoPanic I) (w : World)
+    (hw : I w) (hfuel : ¬ RemoveDirAllOut fuel p w) : (removeDirAll fuel p w).1 ≠ .panic :=
+  fun hp => hfuel (removeDirAll_panic fuel p h w hw hp)
+
+/-! #### collecting a walk -/
+
+/-- **one unfolding of the collection loop** never panics provided the recursive call does not -/
+theorem np_walkAll_step (fs : FS) (hfs : fs.NoPanic I) (fuel : Nat) (s : Walk) (hs : s.On fs)
+    (hrec : ∀ s' : Walk, s'.On fs → NoPanic I (walkAll fuel s')) :
+    NoPanic I (walkAll (fuel + 1) s) := by
+  unfold walkAll
+  apply NoPanic.bindQ _ (np_walkNext fs hfs s hs) (walkNext_on fs s hs)
+  intro x hx
+  obtain ⟨item, s'⟩ := x
+  cases item with
+  | none => exact .pure _
+  | some it => exact NoPanic.bind (hrec s' hx.2) (fun _ => .pure _)
+
+/-- `walkAll fuel s` reaches the `0 =>` branch: the iterator yields at least `fuel` items -/
+def WalkAllOut : Nat → Walk → World → Prop
+  | 0, _, _ => True
+  | fuel + 1, s, w => ∃ it s' w', walkNext s w = (.ok (some it, s'), w') ∧ WalkAllOut fuel s' w'
+
+/-- **a `.panic` of the collected walk is the fuel sentinel** -/
+theorem walkAll_panic (fs : FS) (hfs : fs.NoPanic I) (fuel : Nat) (s : Walk) (hs : s.On fs)
+    (w : World) (hw : I w) (hp : (walkAll fuel s w).1 = .panic) : WalkAllOut fuel s w := by
+  induction fuel generalizing s w with
+  | zero => unfold WalkAllOut; trivial
+  | succ fuel ih =>
+    unfold walkAll at hp
+    have hq := (walkNext_on fs s hs).post w
+    obtain ⟨x, w1, hnx, hw1, hp1⟩ := NoPanic.bind_panic_right (np_walkNext fs hfs s hs) hw hp
+    rw [hnx] at hq
+    obtain ⟨item, s'⟩ := x
+    have hs' : s'.On fs := (hq _ rfl).2
+    cases item with
+    | none => exact absurd hp1 (Res.ok_ne_panic _)
+    | some it =>
+      have hp1' : (M.bind (walkAll fuel s') (fun rest => Pure.pure (it :: rest)) w1).1 = .panic := hp1
+      unfold WalkAllOut
+      refine ⟨it, s', w1, hnx, ?_⟩
+      cases hres : walkAll fuel s' w1 with
+      | mk r w2 =>
+        cases r with
+        | ok rest => rw [M.bind_ok hres] at hp1'; exact absurd hp1' (Res.ok_ne_panic _)
+        | err k pth => rw [M.bind_err hres] at hp1'; cases hp1'
+        | panic => exact ih s' hs' w1 hw1 (by rw [hres])
+
+/-! #### the loop of copy_dir / move_dir -/
+
+/-- the walk state of copy_dir / move_dir: over the source filesystem and below the source -/
+def Walk.From (s : Walk) (src : VPath) : Prop := s.On src.fs ∧ s.Below src.path
+
+theorem walkDir_from (src : VPath) : Returns src.walkDir (fun s => s.From src) :=
+  (walkDir_on src).and (walkDir_below src)
+
+/-- what `next` returns on such a state -/
+theorem walkNext_from (src : VPath) (s : Walk) (hs : s.From src) :
+    Returns (walkNext s) (fun r => (∀ x, r.1 = some (.ok x) → x.fs = src.fs ∧ Below src.path x) ∧
+      r.1 ≠ some .panic ∧ r.2.From src) := by
+  apply (((walkNext_on src.fs s hs.1).and (walkNext_below src.path s hs.2)).and (walkNext_item s)).mono
+  rintro r ⟨⟨⟨h1, h2⟩, ⟨h3, h4⟩⟩, h5⟩
+  exact ⟨fun x hx => ⟨h1 x hx, h3 x hx⟩, h5, h2, h4⟩
+
+/-- the body of the loop for one walked item: the destination path (the slice is in range),
+its metadata, then `create_dir` or `copy_file` -/
+theorem np_copyBody (src dst x : VPath) (hs : src.fs.NoPanic I) (hd : dst.fs.NoPanic I)
+    (hxf : x.fs = src.fs) (hxb : Below src.path x) {β} (k : M β) (hk : NoPanic I k) :
+    NoPanic I (do
+      let d ← M.ret (relJoin dst src.path.length x)
+      let md ← x.metadata
+      match md.ftype with
+      | .dir => d.createDir
+      | .file => x.copyFile d
+      k) := by
+  have hx : x.fs.NoPanic I := by rw [hxf]; exact hs
+  apply NoPanic.bindQ _ (.ret _ (relJoin_ne_panic dst src.path x hxb)) (relJoin_fs dst src.path.length x)
+  intro d hdfs
+  have hdf : d.fs.NoPanic I := by rw [hdfs]; exact hd
+  apply NoPanic.bind (np_metadata x hx)
+  intro md
+  split
+  · exact NoPanic.bind (np_createDir d hdf) (fun _ => hk)
+  · exact NoPanic.bind (np_copyFile x d hx hdf) (fun _ => hk)
+
+/-- **one unfolding of the copy loop** never panics (in particular not at the slice
+`[prefix_len + 1..]`), provided the recursive call does not -/
+theorem np_copyItems_step (fuel : Nat) (src dst : VPath) (hs : src.fs.NoPanic I)
+    (hd : dst.fs.NoPanic I) (s : Walk) (hfrom : s.From src) (count : Nat)
+    (hrec : ∀ (s' : Walk) (c : Nat), s'.From src → NoPanic I (copyItems fuel src dst s' c)) :
+    NoPanic I (copyItems (fuel + 1) src dst s count) := by
+  unfold copyItems
+  apply NoPanic.bindQ _ (np_walkNext src.fs hs s hfrom.1) (walkNext_from src s hfrom)
+  intro a ha
+  obtain ⟨item, s'⟩ := a
+  obtain ⟨hx1, hx2, hx3⟩ := ha
+  cases item with
+  | none => exact .pure _
+  | some r =>
+    cases r with
+    | err k pth => exact .ret _ (Res.err_ne_panic _ _)
+    | panic => exact absurd rfl hx2
+    | ok x =>
+      obtain ⟨hxf, hxb⟩ := hx1 x rfl
+      exact np_copyBody src dst x hs hd hxf hxb _ (hrec s' _ hx3)
+
+theorem pres_copyItems (fuel : Nat) (src dst : VPath) (hs : src.fs.NoPanic I)
+    (hd : dst.fs.NoPanic I) (s : Walk) (hon : s.On src.fs) (count : Nat) :
+    Preserves I (copyItems fuel src dst s count) := by
+  induction fuel generalizing s count with
+  | zero => unfold copyItems; exact Preserves.ret _
+  | succ fuel ih =>
+    unfold copyItems
+    apply Preserves.bindQ _ (np_walkNext src.fs hs s hon).preserves (walkNext_on src.fs s hon)
+    intro a ha
+    obtain ⟨item, s'⟩ := a
+    obtain ⟨hx1, hx2⟩ := ha
+    cases item with
+    | none => exact Preserves.pure _
+    | some r =>
+      cases r with
+      | err k pth => exact Preserves.ret _
+      | panic => exact Preserves.ret _
+      | ok x =>
+        have hx : x.fs.NoPanic I := by rw [hx1 x rfl]; exact hs
+        dsimp only
+        apply Preserves.bindQ _ (Preserves.ret _) (relJoin_fs dst src.path.length x)
+        intro d hdfs
+        have hdf : d.fs.NoPanic I := by rw [hdfs]; exact hd
+        apply Preserves.bind (np_metadata x hx).preserves
+        intro md
+        split
+        · exact Preserves.bind (np_createDir d hdf).preserves (fun _ => ih s' hx2 _)
+        · exact Preserves.bind (np_copyFile x d hx hdf).preserves (fun _ => ih s' hx2 _)
+
+/-- `copyItems fuel src dst s _` reaches the `0 =>` branch: the fuel is 0, or the iterator
+yields a path, that item is transferred successfully, and the rest of the loop runs out of
+fuel -/
+def CopyItemsOut (src dst : VPath) : Nat → Walk → World → Prop
+  | 0, _, _ => True
+  | fuel + 1, s, w => ∃ x s' w1 d md w2 w3, walkNext s w = (.ok (some (.ok x), s'), w1) ∧
+      relJoin dst src.path.length x = .ok d ∧ x.metadata w1 = (.ok md, w2) ∧
+      ((md.ftype = .dir ∧ d.createDir w2 = (.ok (), w3)) ∨
+       (md.ftype = .file ∧ x.copyFile d w2 = (.ok (), w3))) ∧
+      CopyItemsOut src dst fuel s' w3
+
+/-- **a `.panic` of the copy loop is the fuel sentinel** — it is never the out-of-range slice
+`&src_path[prefix_len + 1..]`, nor a panic of anything the loop calls -/
+theorem copyItems_panic (fuel : Nat) (src dst : VPath) (hs : src.fs.NoPanic I)
+    (hd : dst.fs.NoPanic I) (s : Walk) (hfrom : s.From src) (count : Nat) (w : World) (hw : I w)
+    (hp : (copyItems fuel src dst s count w).1 = .panic) : CopyItemsOut src dst fuel s w := by
+  induction fuel generalizing s count w with
+  | zero => unfold CopyItemsOut; trivial
+  | succ fuel ih =>
+    unfold copyItems at hp
+    have hq := (walkNext_from src s hfrom).post w
+    obtain ⟨a, w1, hnx, hw1, hp1⟩ := NoPanic.bind_panic_right (np_walkNext src.fs hs s hfrom.1) hw hp
+    rw [hnx] at hq
+    obtain ⟨item, s'⟩ := a
+    obtain ⟨hx1, hx2, hx3⟩ := hq _ rfl
+    cases item with
+    | none => exact absurd hp1 (Res.ok_ne_panic _)
+    | some r =>
+      cases r with
+      | err k pth => exact absurd hp1 (Res.err_ne_panic _ _)
+      | panic => exact absurd rfl hx2
+      | ok x =>
+        obtain ⟨hxf, hxb⟩ := hx1 x rfl
+        have hx : x.fs.NoPanic I := by rw [hxf]; exact hs
+        dsimp only at hp1
+        have hq2 := (relJoin_fs dst src.path.length x).post w1
+        obtain ⟨d, w1', hrj, hw1', hp2⟩ := NoPanic.bind_panic_right
+          (.ret _ (relJoin_ne_panic dst src.path x hxb)) hw1 hp1
+        rw [hrj] at hq2
+        have hdf : d.fs.NoPanic I := by rw [hq2 d rfl]; exact hd
+        obtain ⟨hrj', rfl⟩ := ret_ok_inv hrj
+        obtain ⟨md, w2, hmd, hw2, hp3⟩ := NoPanic.bind_panic_right (np_metadata x hx) hw1 hp2
+        unfold CopyItemsOut
+        cases hft : md.ftype with
+        | dir =>
+          rw [hft] at hp3
+          obtain ⟨_, w3, hcd, hw3, hp4⟩ := NoPanic.bind_panic_right (np_createDir d hdf) hw2 hp3
+          exact ⟨x, s', w1', d, md, w2, w3, hnx, hrj', hmd, Or.inl ⟨hft, hcd⟩,
+            ih s' hx3 _ w3 hw3 hp4⟩
+        | file =>
+          rw [hft] at hp3
+          obtain ⟨_, w3, hcf, hw3, hp4⟩ := NoPanic.bind_panic_right (np_copyFile x d hx hdf) hw2 hp3
+          exact ⟨x, s', w1', d, md, w2, w3, hnx, hrj', hmd, Or.inr ⟨hft, hcf⟩,
+            ih s' hx3 _ w3 hw3 hp4⟩
+
+/-- `copy_dir`: one unfolding -/
+theorem np_copyDir_of (fuel : Nat) (src dst : VPath) (hs : src.fs.NoPanic I) (hd : dst.fs.NoPanic I)
+    (hrec : ∀ s : Walk, s.From src → NoPanic I (copyItems fuel src dst s 0)) :
+    NoPanic I (src.copyDir fuel dst) := by
+  unfold copyDir
+  apply NoPanic.withPath
+  apply NoPanic.bind (np_exists dst hd)
+  intro b
+  split
+  · exact .failAt _ _
+  · apply NoPanic.bind (np_createDir dst hd)
+    intro _
+    apply NoPanic.bindQ _ (np_walkDir src hs) (walkDir_from src)
+    intro s hfrom
+    exact hrec s hfrom
+
+/-- **a `.panic` of `copy_dir` is the fuel sentinel of its loop** -/
+theorem copyDir_panic (fuel : Nat) (src dst : VPath) (hs : src.fs.NoPanic I) (hd : dst.fs.NoPanic I)
+    (w : World) (hw : I w) (hp : (src.copyDir fuel dst w).1 = .panic) :
+    ∃ w1 w2 s w3, dst.exists_ w = (.ok false, w1) ∧ dst.createDir w1 = (.ok (), w2) ∧
+      src.walkDir w2 = (.ok s, w3) ∧ CopyItemsOut src dst fuel s w3 := by
+  unfold copyDir at hp
+  have hp0 := withPath_panic_inv _ _ _ hp
+  obtain ⟨b, w1, hex, hw1, hp1⟩ := NoPanic.bind_panic_right (np_exists dst hd) hw hp0
+  split at hp1
+  · exact absurd hp1 (Res.err_ne_panic _ _)
+  · rename_i hb
+    have hb' : b = false := by cases b <;> simp_all
+    subst hb'
+    obtain ⟨_, w2, hcd, hw2, hp2⟩ := NoPanic.bind_panic_right (np_createDir dst hd) hw1 hp1
+    have hq := (walkDir_from src).post w2
+    obtain ⟨s, w3, hwd, hw3, hp3⟩ := NoPanic.bind_panic_right (np_walkDir src hs) hw2 hp2
+    rw [hwd] at hq
+    exact ⟨w1, w2, s, w3, hex, hcd, hwd, copyItems_panic fuel src dst hs hd s (hq s rfl) 0 w3 hw3 hp3⟩
+
+/-- `move_dir`: one unfolding -/
+theorem np_moveDir_of (fuel : Nat) (src dst : VPath) (hs : src.fs.NoPanic I) (hd : dst.fs.NoPanic I)
+    (hrec1 : ∀ s : Walk, s.From src → NoPanic I (copyItems fuel src dst s 0))
+    (hrec2 : NoPanic I (removeDirAll fuel src)) :
+    NoPanic I (src.moveDir fuel dst) := by
+  unfold moveDir
+  apply NoPanic.withPath
+  apply NoPanic.bind (np_exists dst hd)
+  intro b
+  split
+  · exact .failAt _ _
+  · have hf := np_fast (I := I) (c := src.fsId = dst.fsId) (fun _ => hs.moveDir src.path dst.path)
+    apply NoPanic.bindI _ hf.1 hf.2
+    intro fast hfast
+    split
+    · exact .pure _
+    · exact absurd rfl hfast
+    · split
+      · exact .ret _ (Res.err_ne_panic _ _)
+      · apply NoPanic.bind (np_createDir dst hd)
+        intro _
+        apply NoPanic.bindQ _ (np_walkDir src hs) (walkDir_from src)
+        intro s hfrom
+        exact NoPanic.bind (hrec1 s hfrom) (fun _ => hrec2)
+
+/-- **a `.panic` of `move_dir` is the fuel sentinel** of its copy loop or of the final
+`remove_dir_all` -/
+theorem moveDir_panic (fuel : Nat) (src dst : VPath) (hs : src.fs.NoPanic I) (hd : dst.fs.NoPanic I)
+    (w : World) (hw : I w) (hp : (src.moveDir fuel dst w).1 = .panic) :
+    (∃ s w', s.From src ∧ I w' ∧ CopyItemsOut src dst fuel s w') ∨
+    (∃ w', I w' ∧ RemoveDirAllOut fuel src w') := by
+  unfold moveDir at hp
+  have hp0 := withPath_panic_inv _ _ _ hp
+  obtain ⟨b, w1, hex, hw1, hp1⟩ := NoPanic.bind_panic_right (np_exists dst hd) hw hp0
+  split at hp1
+  · exact absurd hp1 (Res.err_ne_panic _ _)
+  · have hf := np_fast (I := I) (c := src.fsId = dst.fsId) (fun _ => hs.moveDir src.path dst.path)
+    obtain ⟨fast, w2, hfe, hw2, hp2⟩ := NoPanic.bind_panic_right hf.1 hw1 hp1
+    have hfast := hf.2 w1 hw1 fast (by rw [hfe])
+    split at hp2
+    · exact absurd hp2 (Res.ok_ne_panic _)
+    · exact absurd rfl hfast
+    · split at hp2
+      · exact absurd hp2 (Res.err_ne_panic _ _)
+      · obtain ⟨_, w3, hcd, hw3, hp3⟩ := NoPanic.bind_panic_right (np_createDir dst hd) hw2 hp2
+        have hq := (walkDir_from src).post w3
+        obtain ⟨s, w4, hwd, hw4, hp4⟩ := NoPanic.bind_panic_right (np_walkDir src hs) hw3 hp3
+        rw [hwd] at hq
+        have hfrom := hq s rfl
+        have hp4' : (M.bind (copyItems fuel src dst s 0) (fun _ => removeDirAll fuel src) w4).1 = .panic := hp4
+        have hpres := (pres_copyItems fuel src dst hs hd s hfrom.1 0).pres w4 hw4
+        cases hres : copyItems fuel src dst s 0 w4 with
+        | mk r w5 =>
+          rw [hres] at hpres
+          cases r with
+          | ok n =>
+            rw [M.bind_ok hres] at hp4'
+            exact Or.inr ⟨w5, hpres, removeDirAll_panic fuel src hs w5 hpres hp4'⟩
+          | err k pth => rw [M.bind_err hres] at hp4'; cases hp4'
+          | panic =>
+            exact Or.inl ⟨s, w4, hfrom, hw4,
+              copyItems_panic fuel src dst hs hd s hfrom 0 w4 hw4 (by rw [hres])⟩
+
+end VPath
+end Vfs
+
+/-! ### AltrootFS: a path computation (a `join`, total) followed by one operation of the
+`VfsPath` layer on the root's filesystem -/
+namespace Vfs
+namespace Altroot
+variable {I : World → Prop}
+
+/-- `AltrootFS::path` never panics: `&path[1..]` is taken only when the path starts with '/' -/
+theorem path_ne_panic (root : VPath) (p : Str) : path root p ≠ .panic := by
+  unfold path
+  split
+  · exact Res.ok_ne_panic _
+  · split <;> exact VPath.join_ne_panic _ _
+
+theorem np_path (root : VPath) (p : Str) : NoPanic I (M.ret (path root p)) :=
+  .ret _ (path_ne_panic root p)
+
+theorem noPanic (root : VPath) (h : root.fs.NoPanic I) : (fs root).NoPanic I where
+  readDir p := by
+    simp only [fs]
+    apply NoPanic.bindQ _ (np_path root p) (path_fs root p)
+    intro q hq
+    apply NoPanic.bind (VPath.np_readDir q (by rw [hq.1]; exact h))
+    intro l; exact .pure _
+  createDir p := .bindQ _ (np_path root p) (path_fs root p)
+    (fun q hq => VPath.np_createDir q (by rw [hq.1]; exact h))
+  openFile p := .bindQ _ (np_path root p) (path_fs root p)
+    (fun q hq => VPath.np_openFile q (by rw [hq.1]; exact h))
+  createFile p := .bindQ _ (np_path root p) (path_fs root p)
+    (fun q hq => VPath.np_createFile q (by rw [hq.1]; exact h))
+  appendFile p := .bindQ _ (np_path root p) (path_fs root p)
+    (fun q hq => VPath.np_appendFile q (by rw [hq.1]; exact h))
+  metadata p := .bindQ _ (np_path root p) (path_fs root p)
+    (fun q hq => VPath.np_metadata q (by rw [hq.1]; exact h))
+  setCreationTime p t := .bindQ _ (np_path root p) (path_fs root p)
+    (fun q hq => VPath.np_setCreationTime q t (by rw [hq.1]; exact h))
+  setModificationTime p t := .bindQ _ (np_path root p) (path_fs root p)
+    (fun q hq => VPath.np_setModificationTime q t (by rw [hq.1]; exact h))
+  setAccessTime p t := .bindQ _ (np_path root p) (path_fs root p)
+    (fun q hq => VPath.np_setAccessTime q t (by rw [hq.1]; exact h))
+  exists_ p := by
+    simp only [fs]
+    have := (path_fs root p).post
+    split
+    · rename_i q heq
+      have hq := this default q (by simp [M.ret, heq])
+      exact VPath.np_exists q (by rw [hq.1]; exact h)
+    · exact .pure _
+  removeFile p := .bindQ _ (np_path root p) (path_fs root p)
+    (fun q hq => VPath.np_removeFile q (by rw [hq.1]; exact h))
+  removeDir p := .bindQ _ (np_path root p) (path_fs root p)
+    (fun q hq => VPath.np_removeDir q (by rw [hq.1]; exact h))
+  copyFile s d := by
+    simp only [fs]
+    split
+    · exact .failK _
+    · apply NoPanic.bindQ _ (np_path root s) (path_fs root s)
+      intro sp hsp
+      apply NoPanic.bindQ _ (np_path root d) (path_fs root d)
+      intro dp hdp
+      exact VPath.np_copyFile sp dp (by rw [hsp.1]; exact h) (by rw [hdp.1]; exact h)
+  moveFile _ _ := .failK _
+  moveDir _ _ := .failK _
+  createHandle := (all_preserve root h.all).createHandle
+  appendHandle := (all_preserve root h.all).appendHandle
+
+end Altroot
+
+/-! ### OverlayFS
+
+The model writes the Rust slices `&path[1..]` as `drop 1` (`tail1`) and `&filename[..len-3]`
+as `take (len - 3)` (`stripWo`), which are total. In the Rust code these slices are guarded:
+`&path[1..]` is reached only after `path.is_empty()` has been excluded (`read_path`,
+`write_path`, `whiteout_path`, `read_dir`), and `[..len-3]` only under `ends_with("_wo")`;
+VFS path strings are ASCII-'/'-separated, so index 1 is a character boundary for every
+non-empty path that starts with '/'. What is proved here is that nothing *else* in the overlay
+(joins, the per-layer calls, the loops over the layers, which are structural) panics. -/
+namespace Overlay
+open VPath
+variable {I : World → Prop}
+
+/-- the hypothesis on the layers -/
+abbrev NPLayers (I : World → Prop) (layers : List VPath) : Prop := ∀ l ∈ layers, l.fs.NoPanic I
+
+/-- (`writeLayer []` is the placeholder filesystem, so no non-emptiness hypothesis is needed) -/
+theorem writeLayer_np (layers : List VPath) (hl : NPLayers I layers) :
+    (writeLayer layers).fs.NoPanic I := by
+  cases layers with
+  | nil => exact FS.NoPanic.default
+  | cons a t => exact hl a (by simp)
+
+theorem np_join (l : VPath) (arg : Str) : NoPanic I (M.ret (l.join arg)) :=
+  .ret _ (join_ne_panic l arg)
+
+theorem join_np (l : VPath) (hl : l.fs.NoPanic I) (arg : Str) :
+    Returns (M.ret (l.join arg)) (fun q => q.fs.NoPanic I) :=
+  Returns.ret _ (fun q h => by rw [(join_fs _ _ _ h).1]; exact hl)
+
+theorem whiteoutPath_ne_panic (layers : List VPath) (p : Str) : whiteoutPath layers p ≠ .panic := by
+  unfold whiteoutPath
+  split <;> exact join_ne_panic _ _
+
+theorem writePath_ne_panic (layers : List VPath) (p : Str) : writePath layers p ≠ .panic := by
+  unfold writePath
+  split
+  · exact Res.ok_ne_panic _
+  · exact join_ne_panic _ _
+
+theorem whiteoutPath_np (layers : List VPath) (hl : NPLayers I layers) (p : Str) :
+    Returns (M.ret (whiteoutPath layers p)) (fun q => q.fs.NoPanic I) := by
+  apply Returns.ret
+  intro q h
+  unfold whiteoutPath at h
+  split at h <;> (rw [(join_fs _ _ _ h).1]; exact writeLayer_np layers hl)
+
+theorem writePath_np (layers : List VPath) (hl : NPLayers I layers) (p : Str) :
+    Returns (M.ret (writePath layers p)) (fun q => q.fs.NoPanic I) := by
+  apply Returns.ret
+  intro q h
+  unfold writePath at h
+  split at h
+  · injection h with h; subst h; exact writeLayer_np layers hl
+  · rw [(join_fs _ _ _ h).1]; exact writeLayer_np layers hl
+
+theorem np_whiteoutPath (layers : List VPath) (p : Str) : NoPanic I (M.ret (whiteoutPath layers p)) :=
+  .ret _ (whiteoutPath_ne_panic layers p)
+theorem np_writePath (layers : List VPath) (p : Str) : NoPanic I (M.ret (writePath layers p)) :=
+  .ret _ (writePath_ne_panic layers p)
+
+theorem np_firstExisting (p : Str) (ls : List VPath) (hs : NPLayers I ls) :
+    NoPanic I (firstExisting p ls) := by
+  induction ls with
+  | nil => unfold firstExisting; exact .pure _
+  | cons l rest ih =>
+    unfold firstExisting
+    apply NoPanic.bindQ _ (np_join l _) (join_np l (hs l (by simp)) _)
+    intro lp hlp
+    apply NoPanic.bind (np_exists lp hlp)
+    intro b; split
+    · exact .pure _
+    · exact ih (fun x hx => hs x (by simp [hx]))
+
+theorem firstExisting_np (p : Str) (ls : List VPath) (hs : NPLayers I ls) :
+    Returns (firstExisting p ls) (fun o => ∀ q, o = some q → q.fs.NoPanic I) := by
+  induction ls with
+  | nil =>
+    unfold firstExisting
+    exact Returns.pure _ (by simp)
+  | cons l rest ih =>
+    unfold firstExisting
+    apply Returns.bindQ (join_np l (hs l (by simp)) _)
+    intro lp hlp
+    apply Returns.bind
+    intro b
+    split
+    · apply Returns.pure
+      intro q hq; injection hq with hq; subst hq
+      exact hlp
+    · exact ih (fun x hx => hs x (by simp [hx]))
+
+theorem np_readPath (layers : List VPath) (hl : NPLayers I layers) (p : Str) :
+    NoPanic I (readPath layers p) := by
+  unfold readPath
+  split
+  · exact .pure _
+  · apply NoPanic.bindQ _ (np_whiteoutPath layers p) (whiteoutPath_np layers hl p)
+    intro wo hwo
+    apply NoPanic.bind (np_exists wo hwo)
+    intro b; split
+    · exact .failK _
+    · apply NoPanic.bind (np_firstExisting p layers hl)
+      intro o
+      split
+      · exact .pure _
+      · apply NoPanic.bindQ _ (np_join _ _) (join_np _ (writeLayer_np layers hl) _)
+        intro rp hrp
+        apply NoPanic.bind (np_exists rp hrp)
+        intro b; split
+        · exact .failK _
+        · exact .pure _
+
+theorem readPath_np (layers : List VPath) (hl : NPLayers I layers) (p : Str) :
+    Returns (readPath layers p) (fun q => q.fs.NoPanic I) := by
+  unfold readPath
+  split
+  · exact Returns.pure _ (writeLayer_np layers hl)
+  · apply Returns.bind; intro wo
+    apply Returns.bind; intro b
+    split
+    · exact Returns.failK _
+    · apply Returns.bindQ (firstExisting_np p layers hl)
+      intro o ho
+      split
+      · rename_i lp; exact Returns.pure _ (ho lp rfl)
+      · apply Returns.bindQ (join_np _ (writeLayer_np layers hl) _)
+        intro rp hrp
+        apply Returns.bind; intro b
+        split
+        · exact Returns.failK _
+        · exact Returns.pure _ hrp
+
+theorem np_exists (layers : List VPath) (hl : NPLayers I layers) (p : Str) :
+    NoPanic I (Overlay.exists_ layers p) := by
+  unfold Overlay.exists_
+  apply NoPanic.bindQ _ (np_whiteoutPath layers p) (whiteoutPath_np layers hl p)
+  intro wo hwo
+  apply NoPanic.bind (VPath.np_exists wo hwo)
+  intro b; split
+  · exact .pure _
+  · have hrp := np_readPath layers hl p
+    have hq := (readPath_np layers hl p).post
+    constructor
+    · intro w hw
+      have h1 := hrp.pres w hw
+      have h3 := hq w
+      cases hres : readPath layers p w with
+      | mk r w' =>
+        rw [hres] at h1 h3
+        cases r with
+        | ok q => exact (VPath.np_exists q (h3 q rfl)).pres w' h1
+        | err k pth => cases k <;> exact h1
+        | panic => exact h1
+    · intro w hw
+      have h1 := hrp.pres w hw
+      have h2 := hrp.np w hw
+      have h3 := hq w
+      cases hres : readPath layers p w with
+      | mk r w' =>
+        rw [hres] at h1 h2 h3
+        cases r with
+        | ok q => exact (VPath.np_exists q (h3 q rfl)).np w' h1
+        | err k pth => cases k <;> (dsimp only; first | exact Res.ok_ne_panic _ | exact Res.err_ne_panic _ _)
+        | panic => exact absurd rfl h2
+
+theorem np_ensureHasParent (layers : List VPath) (hl : NPLayers I layers) (p : Str) :
+    NoPanic I (ensureHasParent layers p) := by
+  unfold ensureHasParent
+  split
+  · apply NoPanic.bind (np_exists layers hl _)
+    intro b; split
+    · apply NoPanic.bindQ _ (np_writePath layers _) (writePath_np layers hl _)
+      intro wp hwp
+      exact np_createDirAll wp hwp
+    · exact .failK _
+  · exact .failK _
+
+theorem np_mergeListings (actual : Str) (ls : List VPath) (hs : NPLayers I ls) (acc : List Str) :
+    NoPanic I (mergeListings actual ls acc) := by
+  induction ls generalizing acc with
+  | nil => unfold mergeListings; exact .pure _
+  | cons l rest ih =>
+    unfold mergeListings
+    apply NoPanic.bindQ _ (np_join l _) (join_np l (hs l (by simp)) _)
+    intro lp hlp
+    apply NoPanic.bind (np_isDir lp hlp)
+    intro b; split
+    · apply NoPanic.bind (VPath.np_readDir lp hlp)
+      intro cs
+      exact ih (fun x hx => hs x (by simp [hx])) _
+    · exact ih (fun x hx => hs x (by simp [hx])) _
+
+theorem np_readDir (layers : List VPath) (hl : NPLayers I layers) (p : Str) :
+    NoPanic I (Overlay.readDir layers p) := by
+  unfold Overlay.readDir
+  apply NoPanic.bindQ _ (np_readPath layers hl p) (readPath_np layers hl p)
+  intro rp hrp
+  apply NoPanic.bind (VPath.np_exists rp hrp)
+  intro b; split
+  · exact .failK _
+  · apply NoPanic.bind (np_isDir rp hrp)
+    intro b2; split
+    · exact .failK _
+    · apply NoPanic.bind (np_mergeListings _ layers hl [])
+      intro entries
+      apply NoPanic.bindQ _ (np_join _ _) (join_np _ (writeLayer_np layers hl) _)
+      intro wp hwp
+      apply NoPanic.bind (VPath.np_exists wp hwp)
+      intro b3; split
+      · apply NoPanic.bind (VPath.np_readDir wp hwp)
+        intro marks; exact .pure _
+      · exact .pure _
+
+theorem np_clearWhiteout (layers : List VPath) (hl : NPLayers I layers) (p : Str) :
+    NoPanic I (clearWhiteout layers p) := by
+  unfold clearWhiteout
+  apply NoPanic.bindQ _ (np_whiteoutPath layers p) (whiteoutPath_np layers hl p)
+  intro wo hwo
+  apply NoPanic.bind (VPath.np_exists wo hwo)
+  intro b; split
+  · exact np_removeFile wo hwo
+  · exact .pure _
+
+theorem np_addWhiteout (layers : List VPath) (hl : NPLayers I layers) (p : Str) :
+    NoPanic I (addWhiteout layers p) := by
+  unfold addWhiteout
+  apply NoPanic.bindQ _ (np_whiteoutPath layers p) (whiteoutPath_np layers hl p)
+  intro wo hwo
+  have hpar : wo.parent.fs.NoPanic I := by rw [parent_fs]; exact hwo
+  apply NoPanic.bind (np_createDirAll wo.parent hpar)
+  intro _
+  apply NoPanic.bindQ _ (VPath.np_createFile wo hwo) (createFile_handleOK wo hwo)
+  intro h hh
+  exact hh.np_drop
+
+theorem np_createDir (layers : List VPath) (hl : NPLayers I layers) (p : Str) :
+    NoPanic I (Overlay.createDir layers p) := by
+  unfold Overlay.createDir
+  apply NoPanic.bind (np_ensureHasParent layers hl p)
+  intro _
+  apply NoPanic.bind (np_exists layers hl p)
+  intro b; split
+  · apply NoPanic.bindQ _ (np_readPath layers hl p) (readPath_np layers hl p)
+    intro q hq
+    apply NoPanic.bind (np_metadata q hq)
+    intro md; exact .failK _
+  · apply NoPanic.bindQ _ (np_writePath layers p) (writePath_np layers hl p)
+    intro wp hwp
+    apply NoPanic.bind (VPath.np_createDir wp hwp)
+    intro _; exact np_clearWhiteout layers hl p
+
+theorem np_refuseDir (layers : List VPath) (hl : NPLayers I layers) (p : Str) :
+    NoPanic I (refuseDir layers p) := by
+  unfold refuseDir
+  apply NoPanic.bind (np_exists layers hl p)
+  intro b; split
+  · apply NoPanic.bindQ _ (np_readPath layers hl p) (readPath_np layers hl p)
+    intro q hq
+    apply NoPanic.bind (np_metadata q hq)
+    intro md; split
+    · exact .failK _
+    · exact .pure _
+  · exact .pure _
+
+theorem np_createFile (layers : List VPath) (hl : NPLayers I layers) (p : Str) :
+    NoPanic I (Overlay.createFile layers p) := by
+  unfold Overlay.createFile
+  apply NoPanic.bind (np_ensureHasParent layers hl p)
+  intro _
+  apply NoPanic.bind (np_refuseDir layers hl p)
+  intro _
+  apply NoPanic.bindQ _ (np_writePath layers p) (writePath_np layers hl p)
+  intro wp hwp
+  apply NoPanic.bind (VPath.np_createFile wp hwp)
+  intro h
+  apply NoPanic.bind (np_clearWhiteout layers hl p)
+  intro _; exact .pure _
+
+theorem createFile_handleOK (layers : List VPath) (hl : NPLayers I layers) (p : Str) :
+    Returns (Overlay.createFile layers p) (HandleOK I) := by
+  unfold Overlay.createFile
+  apply Returns.bind; intro _
+  apply Returns.bind; intro _
+  apply Returns.bindQ (writePath_np layers hl p)
+  intro wp hwp
+  apply Returns.bindQ (VPath.createFile_handleOK wp hwp)
+  intro h hh
+  apply Returns.bind; intro _
+  exact Returns.pure _ hh
+
+theorem np_copyUp (layers : List VPath) (hl : NPLayers I layers) (p : Str) (wp : VPath)
+    (hwp : wp.fs.NoPanic I) : NoPanic I (copyUp layers p wp) := by
+  unfold copyUp
+  apply NoPanic.bind (VPath.np_exists wp hwp)
+  intro b; split
+  · apply NoPanic.bind (np_ensureHasParent layers hl p)
+    intro _
+    apply NoPanic.bindQ _ (np_readPath layers hl p) (readPath_np layers hl p)
+    intro rp hrp
+    apply NoPanic.bind (np_isFile rp hrp)
+    intro b2; split
+    · exact .failK _
+    · exact np_copyFile rp wp hrp hwp
+  · exact .pure _
+
+theorem np_appendFile (layers : List VPath) (hl : NPLayers I layers) (p : Str) :
+    NoPanic I (Overlay.appendFile layers p) := by
+  unfold Overlay.appendFile
+  apply NoPanic.bindQ _ (np_writePath layers p) (writePath_np layers hl p)
+  intro wp hwp
+  apply NoPanic.bind (np_copyUp layers hl p wp hwp)
+  intro _; exact VPath.np_appendFile wp hwp
+
+theorem appendFile_handleOK (layers : List VPath) (hl : NPLayers I layers) (p : Str) :
+    Returns (Overlay.appendFile layers p) (HandleOK I) := by
+  unfold Overlay.appendFile
+  apply Returns.bindQ (writePath_np layers hl p)
+  intro wp hwp
+  apply Returns.bind; intro _
+  exact VPath.appendFile_handleOK wp hwp
+
+theorem np_removeFile (layers : List VPath) (hl : NPLayers I layers) (p : Str) :
+    NoPanic I (Overlay.removeFile layers p) := by
+  unfold Overlay.removeFile
+  apply NoPanic.bind (np_readPath layers hl p)
+  intro _
+  apply NoPanic.bindQ _ (np_writePath layers p) (writePath_np layers hl p)
+  intro wp hwp
+  apply NoPanic.bind (VPath.np_exists wp hwp)
+  intro b
+  apply NoPanic.bind
+  · split
+    · exact VPath.np_removeFile wp hwp
+    · exact .pure _
+  · intro _; exact np_addWhiteout layers hl p
+
+theorem np_removeDir (layers : List VPath) (hl : NPLayers I layers) (p : Str) :
+    NoPanic I (Overlay.removeDir layers p) := by
+  unfold Overlay.removeDir
+  apply NoPanic.bind (np_readPath layers hl p)
+  intro _
+  apply NoPanic.bind (np_readDir layers hl p)
+  intro l; split
+  · exact .failK _
+  · apply NoPanic.bindQ _ (np_writePath layers p) (writePath_np layers hl p)
+    intro wp hwp
+    apply NoPanic.bind (VPath.np_exists wp hwp)
+    intro b
+    apply NoPanic.bind
+    · split
+      · exact VPath.np_removeDir wp hwp
+      · exact .pure _
+    · intro _; exact np_addWhiteout layers hl p
+
+/-- every method of the overlay, for arbitrary panic-free layers (any number — the empty list
+included —, nested adapters) -/
+theorem noPanic (layers : List VPath) (hl : NPLayers I layers) : (Overlay.fs layers).NoPanic I where
+  readDir p := np_readDir layers hl p
+  createDir p := np_createDir layers hl p
+  openFile p := .bindQ _ (np_readPath layers hl p) (readPath_np layers hl p)
+    (fun q hq => np_openFile q hq)
+  createFile p := np_createFile layers hl p
+  appendFile p := np_appendFile layers hl p
+  metadata p := .bindQ _ (np_readPath layers hl p) (readPath_np layers hl p)
+    (fun q hq => np_metadata q hq)
+  setCreationTime p t := .bindQ _ (np_writePath layers p) (writePath_np layers hl p)
+    (fun q hq => np_setCreationTime q t hq)
+  setModificationTime p t := .bindQ _ (np_writePath layers p) (writePath_np layers hl p)
+    (fun q hq => np_setModificationTime q t hq)
+  setAccessTime p t := .bindQ _ (np_writePath layers p) (writePath_np layers hl p)
+    (fun q hq => np_setAccessTime q t hq)
+  exists_ p := np_exists layers hl p
+  removeFile p := np_removeFile layers hl p
+  removeDir p := np_removeDir layers hl p
+  copyFile _ _ := .failK _
+  moveFile _ _ := .failK _
+  moveDir _ _ := .failK _
+  createHandle p := createFile_handleOK layers hl p
+  appendHandle p := appendFile_handleOK layers hl p
+
+end Overlay
+
+/-! ### EmbeddedFS: read-only maps, every method is a total function of the state -/
+namespace Embedded
+variable {I : World → Prop}
+
+theorem readDir_ne_panic (s : State) (p : Str) : readDir s p ≠ .panic := by
+  unfold readDir
+  split
+  · simp
+  · split <;> simp [fail]
+
+/-- `open_file` after the fix (`split_at(1)` on the empty path replaced by `normalize_path`) -/
+theorem openFile_ne_panic (s : State) (p : Str) : openFile s p ≠ .panic := by
+  unfold openFile
+  split <;> simp [fail]
+
+theorem metadata_ne_panic (s : State) (p : Str) : metadata s p ≠ .panic := by
+  unfold metadata
+  split
+  · simp
+  · split <;> simp [fail]
+
+/-- the embedded filesystem never panics, for every state and in every world -/
+theorem noPanic (s : State) : (fs s).NoPanic I where
+  readDir p := .ret _ (readDir_ne_panic s p)
+  createDir _ := .failK _
+  openFile p := .ret _ (openFile_ne_panic s p)
+  createFile _ := .failK _
+  appendFile _ := .failK _
+  metadata p := .ret _ (metadata_ne_panic s p)
+  setCreationTime _ _ := .failK _
+  setModificationTime _ _ := .failK _
+  setAccessTime _ _ := .failK _
+  exists_ _ := .ret _ (Res.ok_ne_panic _)
+  removeFile _ := .failK _
+  removeDir _ := .failK _
+  copyFile _ _ := .failK _
+  moveFile _ _ := .failK _
+  moveDir _ _ := .failK _
+  createHandle _ := Returns.failK _
+  appendHandle _ := Returns.failK _
+
+/-- the historical `open_file`: `path.split_at(1)` panics on the empty string (the root) -/
+def openFileSplitAt (s : State) (p : Str) : Res RHandle :=
+  if p = [] then .panic   -- `"".split_at(1)`: byte index 1 is out of bounds
+  else openFile s p       -- otherwise the same lookup of `path[1..]`
+
+/-- the defect, visible in the theory: the old `open_file` panics on the root, for every state -/
+theorem openFileSplitAt_panics_on_root (s : State) : openFileSplitAt s [] = .panic := rfl
+
+/-- away from the root the old and the fixed `open_file` agree -/
+theorem openFileSplitAt_eq (s : State) (p : Str) (h : p ≠ []) : openFileSplitAt s p = openFile s p := by
+  unfold openFileSplitAt
+  rw [if_neg h]
+
+/-- hence a filesystem built on the old `open_file` does not satisfy `FS.NoPanic`, whatever the
+invariant (as long as some world satisfies it) -/
+theorem old_openFile_not_noPanic (s : State) (w : World) (hw : I w) :
+    ¬ NoPanic I (M.ret (openFileSplitAt s [])) :=
+  fun h => h.np w hw rfl
+
+end Embedded
 end Vfs
